@@ -626,27 +626,30 @@ def replay(rec, case):
 
 
 def _worker(item):
-    rank, lengths, depth = item
     rec = Rec('C13')
     with warnings.catch_warnings(), np.errstate(all='ignore'):
         warnings.simplefilter('ignore')
-        for L in lengths:
-            for op, kind, inplace, f1 in itertools.product(BINOPS, OPERAND_KINDS, (False, True), FLAGS):
-                f2s = FLAGS if kind in ('MA', 'MA1') else ['-']
-                for f2 in f2s:
-                    case_binop(rec, {'kind': 'binop', 'rank': rank, 'length': L, 'op': op, 'operand': kind,
-                                     'inplace': inplace, 'f1': f1, 'f2': f2})
-            for how, f1, f2 in itertools.product(['dot', 'dot_inplace', 'matmul', 'imatmul'], FLAGS, FLAGS):
-                case_dot(rec, {'kind': 'dot', 'rank': rank, 'length': L, 'how': how, 'f1': f1, 'f2': f2})
-            for inplace, f1 in itertools.product((False, True), FLAGS):
-                case_invert(rec, {'kind': 'invert', 'rank': rank, 'length': L, 'inplace': inplace, 'f1': f1})
-            case_copy_keys(rec, {'kind': 'keys', 'rank': rank, 'length': L})
-        for L in [x for x in lengths if x <= 7][:2]:
-            for d in range(1, depth + 1):
-                for ops in itertools.product(INPLACE_OPS, repeat=d):
-                    case_seq(rec, {'kind': 'seq', 'rank': rank, 'length': L, 'ops': list(ops)})
-                for ops in itertools.product(IDENT_OPS, repeat=d):
-                    case_ident_seq(rec, {'kind': 'ident_seq', 'rank': rank, 'length': L, 'ops': list(ops)})
+        if item[0] == 'matrix':
+            _, rank, lengths = item
+            for L in lengths:
+                for op, kind, inplace, f1 in itertools.product(BINOPS, OPERAND_KINDS, (False, True), FLAGS):
+                    f2s = FLAGS if kind in ('MA', 'MA1') else ['-']
+                    for f2 in f2s:
+                        case_binop(rec, {'kind': 'binop', 'rank': rank, 'length': L, 'op': op, 'operand': kind,
+                                         'inplace': inplace, 'f1': f1, 'f2': f2})
+                for how, f1, f2 in itertools.product(['dot', 'dot_inplace', 'matmul', 'imatmul'], FLAGS, FLAGS):
+                    case_dot(rec, {'kind': 'dot', 'rank': rank, 'length': L, 'how': how, 'f1': f1, 'f2': f2})
+                for inplace, f1 in itertools.product((False, True), FLAGS):
+                    case_invert(rec, {'kind': 'invert', 'rank': rank, 'length': L, 'inplace': inplace, 'f1': f1})
+                case_copy_keys(rec, {'kind': 'keys', 'rank': rank, 'length': L})
+        else:
+            # E2 shard: all sequences of length <= depth that start with `first`
+            _, which, rank, L, first, depth = item
+            alphabet = INPLACE_OPS if which == 'seq' else IDENT_OPS
+            fn = case_seq if which == 'seq' else case_ident_seq
+            for d in range(0, depth):
+                for tail in itertools.product(alphabet, repeat=d):
+                    fn(rec, {'kind': which, 'rank': rank, 'length': L, 'ops': [first] + list(tail)})
     return rec.to_dict()
 
 
@@ -655,7 +658,14 @@ def run(rec, tier, seed):
         ranks, lengths, depth = [1, 2, 3], [1, 2, 7], 3
     else:
         ranks, lengths, depth = [1, 2, 3, 4, 5], [1, 2, 3, 7, 64], 4
-    core.pmap(_worker, [(r, lengths, depth) for r in ranks], rec)
+    items = [('matrix', r, lengths) for r in ranks]
+    for r in ranks:
+        for L in [x for x in lengths if x <= 7][:2]:
+            for first in INPLACE_OPS:
+                items.append(('e2', 'seq', r, L, first, depth))
+            for first in IDENT_OPS:
+                items.append(('e2', 'ident_seq', r, L, first, depth))
+    core.pmap(_worker, items, rec)
     rec.note('alphabets', {'ranks': ranks, 'lengths': lengths, 'binops': BINOPS, 'operand_kinds': OPERAND_KINDS,
                            'flags': FLAGS, 'inplace_ops': INPLACE_OPS, 'identity_ops': IDENT_OPS})
     rec.note('bounds', {'inplace_sequence_depth': depth})
